@@ -56,6 +56,7 @@ enum OpK {
     Shrink,
     Capacity,
     DebugFmt,
+    LateWrite,
 }
 use OpK::*;
 
@@ -107,6 +108,7 @@ const WEIGHTS: &[(OpK, [u32; 6])] = &[
     (Shrink,         [   0,    0,    0,   20,    3,    3]),
     (Capacity,       [   0,    0,    0,   20,    3,    3]),
     (DebugFmt,       [   6,    4,    2,    4,    4,    4]),
+    (LateWrite,      [   0,    0,    6,    0,    3,    2]),
 ];
 
 /// probability (percent) that an op of the `fuse` profile is prefixed `fuse k`
@@ -164,6 +166,7 @@ fn opk_of_name(n: &str) -> Option<OpK> {
         "shrink" => Shrink,
         "capacity" => Capacity,
         "debug" => DebugFmt,
+        "latewrite" => LateWrite,
         _ => return None,
     })
 }
@@ -1077,6 +1080,10 @@ impl<'a> Gen<'a> {
             Shrink => format!("shrink {r}"),
             Capacity => format!("capacity {r}"),
             DebugFmt => format!("debug {r}"),
+            LateWrite => {
+                let p = self.prio();
+                format!("latewrite {r} {}", self.ptok(p))
+            }
             New | WithCap | FromVec | FromIter | Deser => unreachable!(),
         }
     }
